@@ -28,6 +28,26 @@ def _strip_epoch(t: Term) -> Term:
     return t
 
 
+def _unchanged_after_cancel(p: Path, idx: List[int]) -> bool:
+    """the only mutation on the path is one OrderBook.cancel, and the path has decided that the
+    book's length after it equals its length before it: a cancel can only remove, so nothing changed"""
+    if len(idx) != 1:
+        return False
+    m = p.events[idx[0]]
+    if not calls_target(m, "OrderBook.cancel") or m.recv is None:
+        return False
+    book = strip_ver(m.recv)
+    ln = ("call", ("name", "len"), (book,), (), None)
+    lens = [i for i, e in enumerate(p.events) if e.kind == "call" and e.name == "len" and e.args and strip_ver(e.args[0]) == book]
+    if not ([i for i in lens if i < idx[0]] and [i for i in lens if i > idx[0]]):
+        return False
+    for c, pol, _ in p.conds:
+        c = strip_ver(c)
+        if pol and c[0] == "cmp" and c[1] == "==" and c[2] == ln and c[3] == ln:
+            return True
+    return False
+
+
 @rule("C08.R1", "every book mutation made by a market is followed by a market-price refresh; the last-trade slot is written before it", "T4 must-pass-through", floor=3)
 def r1(ctx: Ctx) -> None:
     muts = ("OrderBook.add", "OrderBook.cancel", "OrderBook.change_order_volume")
@@ -43,6 +63,8 @@ def r1(ctx: Ctx) -> None:
             hit = True
             ups = [i for i, e in enumerate(p.events) if e.kind == "call" and calls_target(e, UMP)]
             if not ups or max(ups) < max(idx):
+                if _unchanged_after_cancel(p, idx):
+                    continue
                 bad += 1
         if hit:
             n += 1
